@@ -2,22 +2,23 @@
 # Applies every stored property-breaking change (seeded/*/patch.diff, seeded/own/**/*.diff, extra dirs given as
 # arguments) to /repo in turn, runs the quick check of its property, reverts, and prints one line each.
 # Negative controls (neg_*, n10_*, m05_*) must stay silent.
-out=${OUT:-/tmp/regress.log}; : > $out
+verif=$(cd "$(dirname "$0")/.." && pwd)
+out=${OUT:-$verif/regress.log}; : > $out
 run() { # patch prop name expect
   local patch=$1 prop=$2 name=$3 expect=$4
-  full=$(timeout 1800 /verif/tools/try_mutant.sh $patch $prop quick 2>&1 | tr '\n' ' ')
+  full=$(timeout 1800 $verif/tools/try_mutant.sh $patch $prop quick 2>&1 | tr '\n' ' ')
   rc=$(echo "$full" | grep -o "exit=[0-9]*" | tail -1)
   res=$(echo "$full" | cut -c1-200)
   verdict=MISSED; [ "$rc" = "exit=1" ] && verdict=caught; [ "$rc" = "exit=2" ] && verdict=HARNESS-ERROR
   if [ "$expect" = "silent" ]; then [ "$rc" = "exit=0" ] && verdict="silent (as required)" || verdict="FALSE ALARM ($rc)"; fi
   echo "$name $prop $verdict :: $(echo "$res" | cut -c1-150)" | tee -a $out
 }
-for d in /verif/seeded/c*/ "$@"; do
+for d in $verif/seeded/c*/ "$@"; do
   [ -f $d/patch.diff ] || [ -f $d/OUT/patch.diff ] || continue
   p=$d/patch.diff; [ -f $p ] || p=$d/OUT/patch.diff
   n=$(basename $d); prop=C${n:1:2}
   run $p $prop $n caught
 done
-for p in /verif/seeded/own/*.diff; do n=$(basename $p .diff); e=caught; case $n in neg_*) e=silent;; esac; run $p C20 own/$n $e; done
-for p in /verif/seeded/own/c19/*.diff; do n=$(basename $p .diff); e=caught; case $n in n10_*|m05_*) e=silent;; esac; run $p C19 own/c19/$n $e; done
+for p in $verif/seeded/own/*.diff; do n=$(basename $p .diff); e=caught; case $n in neg_*) e=silent;; esac; run $p C20 own/$n $e; done
+for p in $verif/seeded/own/c19/*.diff; do n=$(basename $p .diff); e=caught; case $n in n10_*|m05_*) e=silent;; esac; run $p C19 own/c19/$n $e; done
 echo "== summary"; grep -c " caught " $out; grep -E "MISSED|HARNESS|FALSE" $out
